@@ -167,8 +167,10 @@ Definition unary (mk:pat -> pat) (p:pat) (tr:tracker) : option tracker :=
   end.
 
 (** [instantiate] (stateful_interpreter.py:156) and [instantiate_pattern] (:167).
-    [proved = true]: the slices [stack[-len(delta):]] / [stack[:-len(delta)]] are taken even when
-    [len(delta) = 0], where they denote the WHOLE stack / the EMPTY stack (D11). *)
+    Both guard the slices [stack[-len(delta):]] / [stack[:-len(delta)]] with [len(delta)]
+    ([instantiate] since the fix of D11, /repo commit 9b6b5b9; before it the slices were taken even
+    when [len(delta) = 0], where they denote the WHOLE stack / the EMPTY stack, so that
+    [instantiate(p, {})] succeeded only on an otherwise empty stack). *)
 Definition do_instantiate (proved:bool) (p:pat) (d:delta) (tr:tracker) : option tracker :=
   if negb (nodup_keys d) then None else
   match t_stack tr with
@@ -178,7 +180,7 @@ Definition do_instantiate (proved:bool) (p:pat) (d:delta) (tr:tracker) : option 
       if term_eqb t target then
         match d with
         | [] => if proved
-                then (match s with [] => Some (set_tstack [(TProved p, false)] tr) | _ => None end)
+                then Some (set_tstack ((TProved p, false) :: s) tr)     (* [if not delta: return proved] *)
                 else Some (set_tstack ((result, false) :: s) tr)
         | _ => let n := length d in
                if plugs_match (firstn n s) (rev (map snd d))
